@@ -164,6 +164,9 @@ type Sched struct {
 	running  *Task // the task holding the baton
 	main     *Task // the last non-free task that ran: its continuation is the default, leaving it is a preemption
 	ctl      chan struct{}
+	endCh    chan bool
+	altBuf   []Alt
+	maxSteps int
 	aborting bool
 	wg       sync.WaitGroup
 
@@ -270,7 +273,17 @@ func (t *Task) run(fn func()) {
 		t.finished = true
 		t.pend = nil
 		s.wg.Done()
-		s.ctl <- struct{}{}
+		if s.aborting {
+			s.ctl <- struct{}{}
+			return
+		}
+		// hand the baton on: the finishing task picks the next one itself
+		a, st := s.pick()
+		if st == pickOK {
+			a.T.wake <- a
+		} else {
+			s.endCh <- st == pickComplete
+		}
 	}()
 	a := <-t.wake
 	if a.abort {
@@ -297,6 +310,9 @@ func trimStack(st string) string {
 }
 
 // yield parks the running task on o and returns the alternative chosen for it.
+// The yielding task runs the scheduling decision itself: when it is chosen
+// again (the common case) no goroutine switch happens at all; otherwise it
+// wakes the chosen task directly.
 func (s *Sched) yield(t *Task, o op) Alt {
 	if s.aborting {
 		runtime.Goexit()
@@ -305,8 +321,16 @@ func (s *Sched) yield(t *Task, o op) Alt {
 		panic("mc: yield from a task that is not running")
 	}
 	t.pend = o
-	s.ctl <- struct{}{}
-	a := <-t.wake
+	a, st := s.pick()
+	if st != pickOK {
+		s.endCh <- st == pickComplete
+	} else if a.T == t {
+		t.pend = nil
+		return a
+	} else {
+		a.T.wake <- a
+	}
+	a = <-t.wake
 	if a.abort {
 		runtime.Goexit()
 	}
@@ -398,85 +422,98 @@ const watchdog = 20 * time.Second
 
 // loop runs the execution to quiescence (or until decide prunes it).
 // It returns true when the execution ran to quiescence.
+type pickStatus int
+
+const (
+	pickOK       pickStatus = iota
+	pickComplete            // quiescent (or a task panicked): the execution is over
+	pickStopped             // pruned by the explorer, or a checker error
+)
+
+// pick makes one scheduling decision. It runs on the goroutine of whichever
+// task just parked or finished (exactly one task runs at any time).
+func (s *Sched) pick() (Alt, pickStatus) {
+	if len(s.Panics) > 0 {
+		return Alt{}, pickComplete
+	}
+	s.altBuf = s.enabledAlts(s.altBuf)
+	buf := s.altBuf
+	if len(buf) == 0 {
+		return Alt{}, pickComplete
+	}
+	if s.steps >= s.maxSteps {
+		s.err = &CheckerError{fmt.Sprintf("step horizon %d reached (livelock or unbounded script)", s.maxSteps)}
+		return Alt{}, pickStopped
+	}
+	// Purely local steps (a task starting, a task resuming after a rendezvous
+	// another task performed) commute with everything: take them at once.
+	// A single enabled alternative is no decision either.
+	c := -1
+	for i := range buf {
+		switch buf[i].T.pend.(type) {
+		case opStart, opResume:
+			c = i
+		}
+		if c >= 0 {
+			break
+		}
+	}
+	forced := c >= 0
+	if c < 0 && len(buf) == 1 {
+		c, forced = 0, true
+	}
+	if !forced {
+		c = s.decide(s, buf)
+		if c < 0 {
+			return Alt{}, pickStopped
+		}
+		if c >= len(buf) {
+			s.err = &CheckerError{fmt.Sprintf("replay divergence: choice %d of %d at step %d", c, len(buf), s.steps)}
+			return Alt{}, pickStopped
+		}
+	}
+	a := buf[c]
+	// preemption accounting: switching away from a still-enabled running task
+	if !forced && s.main != nil && a.T != s.main && !a.T.Free && len(buf) > 0 && buf[0].T == s.main {
+		s.preempts++
+	}
+	if len(buf) > 255 {
+		s.err = &CheckerError{"more than 255 alternatives"}
+		return Alt{}, pickStopped
+	}
+	if !forced {
+		s.Choices = append(s.Choices, uint8(c))
+	}
+	if s.KeepTrace {
+		s.Trace = append(s.Trace, Step{Task: a.T.Path, Name: a.T.Name, Op: a.T.pend.String(), Case: a.Case, NAlts: len(buf), Choice: c})
+	}
+	s.steps++
+	s.running = a.T
+	if !a.T.Free {
+		s.main = a.T
+	}
+	return a, pickOK
+}
+
+// loop starts the execution and waits until it is over (quiescence, a panic,
+// pruning or an error). It returns true when the execution ran to quiescence.
 func (s *Sched) loop(maxSteps int) (complete bool) {
-	var buf []Alt
+	s.maxSteps = maxSteps
+	a, st := s.pick()
+	if st != pickOK {
+		return st == pickComplete
+	}
+	a.T.wake <- a
 	timer := time.NewTimer(watchdog)
 	defer timer.Stop()
-	for {
-		if !timer.Stop() {
-			select {
-			case <-timer.C:
-			default:
-			}
-		}
-		timer.Reset(watchdog)
-		select {
-		case <-s.ctl:
-		case <-timer.C:
-			bufst := make([]byte, 1<<16)
-			n := runtime.Stack(bufst, true)
-			s.err = &CheckerError{"watchdog: running task did not reach a controlled operation within " + watchdog.String() + " (blocked natively?)\n" + string(bufst[:n])}
-			return false
-		}
-		if len(s.Panics) > 0 {
-			return true
-		}
-		buf = s.enabledAlts(buf)
-		if len(buf) == 0 {
-			return true
-		}
-		if s.steps >= maxSteps {
-			s.err = &CheckerError{fmt.Sprintf("step horizon %d reached (livelock or unbounded script)", maxSteps)}
-			return false
-		}
-		// Purely local steps (a task starting, a task resuming after a rendezvous
-		// another task performed) commute with everything: take them at once.
-		// A single enabled alternative is no decision either.
-		c := -1
-		for i := range buf {
-			switch buf[i].T.pend.(type) {
-			case opStart, opResume:
-				c = i
-			}
-			if c >= 0 {
-				break
-			}
-		}
-		forced := c >= 0
-		if c < 0 && len(buf) == 1 {
-			c, forced = 0, true
-		}
-		if !forced {
-			c = s.decide(s, buf)
-			if c < 0 {
-				return false
-			}
-			if c >= len(buf) {
-				s.err = &CheckerError{fmt.Sprintf("replay divergence: choice %d of %d at step %d", c, len(buf), s.steps)}
-				return false
-			}
-		}
-		a := buf[c]
-		// preemption accounting: switching away from a still-enabled running task
-		if !forced && s.main != nil && a.T != s.main && !a.T.Free && len(buf) > 0 && buf[0].T == s.main {
-			s.preempts++
-		}
-		if len(buf) > 255 {
-			s.err = &CheckerError{"more than 255 alternatives"}
-			return false
-		}
-		if !forced {
-			s.Choices = append(s.Choices, uint8(c))
-		}
-		if s.KeepTrace {
-			s.Trace = append(s.Trace, Step{Task: a.T.Path, Name: a.T.Name, Op: a.T.pend.String(), Case: a.Case, NAlts: len(buf), Choice: c})
-		}
-		s.steps++
-		s.running = a.T
-		if !a.T.Free {
-			s.main = a.T
-		}
-		a.T.wake <- a
+	select {
+	case c := <-s.endCh:
+		return c
+	case <-timer.C:
+		bufst := make([]byte, 1<<16)
+		n := runtime.Stack(bufst, true)
+		s.err = &CheckerError{"watchdog: the execution did not end within " + watchdog.String() + " (a task blocked natively?)\n" + string(bufst[:n])}
+		return false
 	}
 }
 
